@@ -122,10 +122,11 @@ PROPS = {
     },
     "C14": {
         "level": "exploration",
-        "steps": [("hv", "C14", {"_scale": 6.0})],
+        "steps": [("hv", "C14", {"_scale": 6.0}), ("py", "c14ls", "run")],
         "rule": "documents built from a pool of flagged clauses with twins (same flagged word, different neighbours), plain and Markdown; random subsets ignored through IgnoredLints; "
                 "checks: ignored lint gone, every lint observably different from all ignored ones survives, export/import equivalence, and edits >= 8 characters away (prepend / append "
-                "paragraph, quoted paragraph, inserted words) keep it ignored; non-trivial = document with >= 2 lints; distinct = hash(document, chosen subset)",
+                "paragraph, quoted paragraph, inserted words) keep it ignored; harper-ls histories: a diagnostic is ignored through the HarperIgnoreLint command the server itself offers "
+                "(gone, every diagnostic with another message or flagged text still published, nothing new), then clean paragraphs are appended / prepended; non-trivial = document with >= 2 lints; distinct = hash(document, chosen subset)",
         "assumptions": ["identity of a lint = kind, message, suggestions, flagged text, tokens within two characters before/after (from the statement)"],
     },
     "C15": {
